@@ -13,6 +13,7 @@ from pyvc.spec import And, Or, Not, ite, Implies, is_instance, type_of, require,
 from pyvc.path import RaiseEx, PathEnd
 from pyvc.values import SObj
 from pyvc.aio import World, install
+from pyvc.loops import LoopSpec
 from pyvc import sym
 from dali import frame as F, command as C, sequences as S
 from dali.exceptions import CommunicationError
@@ -67,8 +68,9 @@ class SeqModel:
     """a command sequence as the driver sees it: up to three yields (commands with or without a device type, sleeps,
     progress reports), then StopIteration or an exception of its own"""
 
-    def __init__(self, ctx):
+    def __init__(self, ctx, unlimited=False):
         self.ctx = ctx
+        self.unlimited = unlimited      # loop-rule units: one arbitrary step per (arbitrary) iteration
         self.n = 0
         self.closed = False
         self.started = False
@@ -79,7 +81,7 @@ class SeqModel:
         ctx = self.ctx
         self.started = True
         self.n += 1
-        k = ctx.choose_int(ctx.fresh_int("seq_step", 0, 5 if self.n <= 3 else 1), "sequence step")
+        k = ctx.choose_int(ctx.fresh_int("seq_step", 0, 5 if (self.n <= 3 or self.unlimited) else 1), "sequence step")
         if k == 0:
             v = ctx.fresh_int("seq_result", 0, 255)
             if getattr(ctx, "native", False):
@@ -222,6 +224,76 @@ def units(tier):
         ctx.prove("a-started-sequence-is-closed-on-every-exit", seq.closed or not seq.started)
         ctx.prove("whole-sequence-inside-one-critical-section", lock.acquisitions <= 1)
     unit("serial.run_sequence", r_sseq, use=USE0 + [SER_SEND])
+
+    # ------------------------------------------------------------ sequences of ANY length: the loop rule on `while True`
+    def any_length(name, fn_key, runfn, mk, use):
+        st = {}
+
+        def iteration_ok():
+            """what one iteration may send: nothing (sleep / progress), the command, or EnableDeviceType(dt) directly
+            followed by the command that needs it - all of it under the lock"""
+            calls = cur["calls"]
+            if not all(h for _, _, h in calls):
+                return False
+            cmds = [c for k, c, _ in calls]
+            last = st["seq"].yielded[-1] if st["seq"].yielded else None
+            if not cmds:
+                return last is None or not is_instance(last, C.Command)
+            if cmds[-1] is not last:
+                return False
+            if len(cmds) == 1:
+                return cmds[0].devicetype == 0
+            if len(cmds) == 2 and type_of(cmds[0]) is G.EnableDeviceType:
+                return And(cmds[1].devicetype != 0, cmds[0].param == cmds[1].devicetype)
+            return False
+
+        def inv(lc):
+            lock, seq = st["lock"], st["seq"]
+            conds = {"lock-held-throughout": lock.held is True, "one-critical-section": lock.acquisitions == 1,
+                     "never-releases-a-lock-held-by-another-task": lock.stolen == 0,
+                     "sequence-still-open": not seq.closed}
+            if lc.phase == "keep":
+                conds["sends-exactly-what-was-yielded-with-its-device-type-prefix"] = iteration_ok()
+            return conds
+
+        def havoc(lc):
+            cur["calls"] = []
+            cur["failures"] = 0
+            st["seq"].yielded = []
+            st["seq"].started = True
+            lc.set("response", None if lc.ctx.fork(lc.ctx.fresh_bool("no_previous_response").e)
+                   else new_object(C.NumericResponse, _value=None))
+
+        def runner(ctx, interp, fn):
+            if getattr(ctx, "native", False):
+                return      # loop-rule states are not executions; the bounded-length units replay natively
+            world = new_world(ctx, interp)
+            drv, lock = mk(ctx, world)
+            seq = SeqModel(ctx, unlimited=True)
+            st.update(lock=lock, seq=seq)
+            out = world.run(runfn, drv, seq)
+            if out[0] == "blocked":
+                return
+            ctx.cover()
+            ctx.prove("lock-token-balanced", lock.held is False, detail="outcome %r" % (out[:2],))
+            ctx.prove("never-releases-a-lock-held-by-another-task", lock.stolen == 0)
+            ctx.prove("a-started-sequence-is-closed-on-every-exit", seq.closed or not seq.started)
+            ctx.prove("gateway-used-only-under-the-lock", all(h for _, _, h in cur["calls"]))
+            if out[0] == "raise":
+                ctx.prove("only-the-sequences-own-errors-gateway-errors-or-cancellation-escape",
+                          issubclass(out[1], (CommunicationError, asyncio.CancelledError, S.DALISequenceError)),
+                          detail="raised %s" % out[1].__name__)
+        U.append(Unit("C15/" + name, "C15", None, None, use=use, width=72, kind="custom", runner=runner, max_paths=200000,
+                      loops={(fn_key, 0): LoopSpec("commands", inv, havoc,
+                                                   roles={"response": ("response", lambda v: v is None)})}))
+
+    def mk_ser(ctx, world):
+        lock = world.lock("transaction")
+        return ctx.new(SER.DriverLubaRs232, transaction_lock=lock, _connected=world.event(True, "connected")), lock
+    any_length("hid.run_sequence/any-length", "dali.driver.hid:hid.run_sequence", HID.hid.run_sequence,
+               lambda ctx, world: mk_hid(ctx, world), USE)
+    any_length("serial.run_sequence/any-length", "dali.driver.serial:DriverSerialBase.run_sequence",
+               SER.DriverSerialBase.run_sequence, mk_ser, USE0 + [SER_SEND])
     return U
 
 
@@ -230,8 +302,9 @@ DEPENDENCIES = ['C04', 'C05']
 
 META = {
     "level": "proof",
-    "bounds": {"sequences": "every sequence of up to three yields (command without / with a device type 1..255, sleep, progress) "
-               "followed by StopIteration or an exception of its own", "faults": "CommunicationError from the gateway at any "
+    "bounds": {"sequences": "sequences of ANY length by the loop rule on run_sequence's `while True` (one arbitrary step per arbitrary "
+               "iteration: command without / with a device type 1..255, sleep, progress, StopIteration, an exception of its "
+               "own); additionally every sequence of up to three yields from the start (these replay natively)", "faults": "CommunicationError from the gateway at any "
                "send (up to two consecutive failures when exceptions are off), CancelledError injected at every await"},
     "assumptions": [
         "the gateway-level send (_send_raw / _power_supply / serial send) is used through an assumed contract: requires the "
